@@ -310,7 +310,7 @@ func (s *Store) commitLocked(evs []Event) {
 	}
 	s.Log = append(s.Log, evs...)
 	if s.OnCommit != nil {
-		s.OnCommit(evs)
+		sched.Atomic(func() { s.OnCommit(evs) }) // the store is locked: no scheduling points inside the callback
 	}
 	for _, w := range s.watchers {
 		w.deliver(evs)
@@ -546,7 +546,7 @@ func (s *Store) begin(label string, write bool) (fault int) {
 	s.Requests++
 	s.expireLocked()
 	if s.OnRequest != nil {
-		s.OnRequest(label, write)
+		sched.Atomic(func() { s.OnRequest(label, write) })
 	}
 	return fault
 }
